@@ -44,7 +44,7 @@ class RunContext(TaskContext):
             if setup_func:
                 try:
                     setup_func()
-                except Exception as e:
+                except BaseException as e:  # incl. SystemExit & co: the worker thread must survive user code
                     self.handle_exception(e, suite)
                     break
                 else:
@@ -61,7 +61,7 @@ class RunContext(TaskContext):
             if teardown_func:
                 try:
                     teardown_func()
-                except Exception as e:
+                except BaseException as e:
                     self.handle_exception(e, suite)
 
     def enable_task_abort(self):
@@ -188,7 +188,7 @@ class TestTask(BaseTask):
                 if context.session.is_successful(ReportLocation.in_test(self.test)):
                     context.session.set_step(self.test.description)
                     self.test.callback(**test_args)
-            except Exception as e:
+            except BaseException as e:
                 context.handle_exception(e, suite)
 
         ###
